@@ -12,9 +12,18 @@ def nonzero_limit_guard(ctx, rid):
     prog = ctx.prog
     nb0 = prog.must_body(RL + "::new")
     found = False
+    # evaluation-first: RateLimit::new interpreted on limit lists containing a zero number, in every position (rate_model.py)
+    from .rate_model import zero_table
+    zt = zero_table(prog)
+    zero_eval = all(o is not None for _l, o in zt)
+    if zero_eval:
+        for limits, outcome in zt:
+            ctx.require(rid, outcome == "Err", "%s:%s" % (nb0.file, nb0.line), "RateLimit::new(%s) is refused (a zero number would be a zero divisor / a bound nobody passes): %s" % (limits, outcome),
+                        [RL + "::new", "zero-number-accepted", repr(limits)])
+        found = True
     # the test may sit in RateLimit::new's own loop, or in the closure that converts one (number, period) entry when the list is
     # built with map(..).collect::<Result<..>>()
-    for nb in body_family(prog, RL + "::new"):
+    for nb in ([] if zero_eval else body_family(prog, RL + "::new")):
         in_closure = nb is not nb0
         guards = []
         for i in sorted(nb.live_blocks()):
@@ -47,14 +56,9 @@ def nonzero_limit_guard(ctx, rid):
         if not in_closure:
             producers = [c.bb for c in nb.calls_to("alloc::vec::Vec::push") if ("tuple", 0) in arg_origins(c, 1).fields or arg_origins(c, 1).has_leaf("param:1")]
         else:
-            # every definition of the closure's result that is not an error value
-            producers = []
-            for kind, bb, j, x in nb.defs.get(0, []):
-                if kind == "stmt" and x["s"] == "assign" and x["rv"]["k"] == "agg" and x["rv"].get("variant") == "Err":
-                    continue
-                if kind == "call" and (x.get("fn") or "").endswith("FromResidual::from_residual"):
-                    continue
-                producers.append(bb)
+            # every place where the closure's non-error result is produced (through the moves an inlined helper leaves behind)
+            from ..util import ok_producers
+            producers = ok_producers(nb)
             users = closure_users(nb0, nb.key)
             if not users or not all(u.name.rsplit("::", 1)[-1] in ("map", "try_for_each", "and_then") for u in users):
                 producers = []
